@@ -330,7 +330,10 @@ def run(repo, run, tier):
               "a parenthesised sub-expression must be kept as ParenExpr (BinaryOp is printed without "
               "parentheses)", dm.loc(prim))
     bo = tm.func("PrintNode.visit_BinaryOp")
-    run.check(R3, "todict.PrintNode.visit_BinaryOp", "self.visit(node.left) + node.op + self.visit(node.right)" in tm.seg(bo),
+    rn = set(a.targets[0].id for a in ast.walk(bo) if isinstance(a, ast.Assign) and isinstance(a.targets[0], ast.Name)
+             and "self.visit(node.right)" in tm.seg(a.value))
+    run.check(R3, "todict.PrintNode.visit_BinaryOp", "self.visit(node.left) + node.op + self.visit(node.right)" in tm.seg(bo)
+              or any("self.visit(node.left) + node.op + %s" % r_ in tm.seg(bo) for r_ in rn),
               "binary expressions must be printed left op right", tm.loc(bo))
 
     # ---- R4
